@@ -138,7 +138,8 @@ fn proc_json(nm: &BTreeMap<i32, String>, pid: i32, p: &Process, outer: i32) -> V
     };
     // the descriptors of a terminated process are closed
     let inp = if st == "Z" { "-" } else { stdin_kind(p) };
-    let dp: Vec<&str> = SIG5.iter().map(|(_, n)| disp_char(p.disposition(*n))).collect();
+    // a terminated process has no dispositions
+    let dp: Vec<&str> = if st == "Z" { vec![] } else { SIG5.iter().map(|(_, n)| disp_char(p.disposition(*n))).collect() };
     json!({"n": nm.get(&pid).cloned().unwrap_or_default(),
            "par": nm.get(&p.ppid().0).cloned().unwrap_or_else(|| "-".to_string()),
            "pg": group_name(nm, p.pgid().0, outer), "st": st, "ss": ss, "ex": ex, "dp": dp, "in": inp})
